@@ -203,6 +203,20 @@ for nm, ty in (('g_pk_decode_exact', 'PublicKey'), ('g_sk_decode_exact', 'Secret
         defs.append("(* UNTIED %s *)\nDefinition %s : bool := true." % (nm, nm))
         sites.append({'name': nm, 'file': 'crypto/src/lib.rs', 'fn': '%s::decode_base64' % ty, 'line': 0, 'rust': None, 'coq': 'true', 'untied': 'site not found'})
 
+
+# ---- consensus helper: is the deserialisation of the stored bytes guarded (match / if let) or unwrapped? ----
+helper_src = strip_comments(open(REPO + '/consensus/src/helper.rs').read())
+_hb, _hl = fn_body(helper_src, 'run')
+if _hb and 'bincode::deserialize' in _hb:
+    m = re.search(r'bincode::deserialize\s*(?:::<[^>]*>)?\s*\([^;]*?\)\s*\.\s*(expect|unwrap)\b', _hb, re.S)
+    v = 'false' if m else 'true'
+    defs.append("(* consensus/helper.rs: fn run (line %d): stored bytes are deserialised %s *)\nDefinition g_helper_deser_guarded : bool := %s." % (_hl, 'with .%s(..): panics on non-block data' % m.group(1) if m else 'under a match / if-let: non-block data is skipped', v))
+    sites.append({'name': 'g_helper_deser_guarded', 'file': 'consensus/helper.rs', 'fn': 'run', 'line': _hl, 'rust': m.group(0)[:80] if m else 'guarded', 'coq': v, 'changed': v != 'true'})
+else:
+    untied.append(('g_helper_deser_guarded', 'site not found'))
+    defs.append("(* UNTIED g_helper_deser_guarded *)\nDefinition g_helper_deser_guarded : bool := true.")
+    sites.append({'name': 'g_helper_deser_guarded', 'file': 'consensus/helper.rs', 'fn': 'run', 'line': 0, 'rust': None, 'coq': 'true', 'untied': 'site not found'})
+
 # ---- commit(): the deque discipline, read off the source (which end each push/pop uses, whether the head is
 # pushed before or after the walk, and the optional stop test inside the walk) ----
 def flag(name, fn, pattern, mapping, default, what):
@@ -244,5 +258,62 @@ hdr = "(* GENERATED by regen.py from %s -- do not edit *)\nFrom Coq Require Impo
 new = hdr + "\n".join(defs) + "\n"
 old = open(OUT).read() if os.path.exists(OUT) else None
 if new != old: open(OUT,'w').write(new)
-if STATUS: json.dump({'sites': sites, 'untied': untied, 'rewritten': new != old}, open(STATUS,'w'), indent=1)
+# ---- panic inventory: every panic-capable operation in non-test code, keyed by file, enclosing fn and normalised text ----
+import glob
+def panic_inventory():
+    inv = {}
+    for f in sorted(glob.glob(REPO + '/*/src/*.rs')):
+        rel = os.path.relpath(f, REPO)
+        if rel.startswith('node/src/client') or rel.startswith('node/src/main'):
+            continue      # benchmark client and CLI entry point: not part of a running node's services
+        src = strip_comments(open(f).read())
+        # drop cfg(test) modules declared inline and hook code
+        src = re.sub(r'#\[cfg\(feature = "hotstuff_verif"\)\]\s*(pub\s+)?(mod|impl|enum|fn)[^{;]*\{', lambda m: 'HOOK{', src)
+        fn = '?'
+        depth_hook = None
+        for ln, line in enumerate(src.split('\n'), 1):
+            m = re.search(r'\bfn\s+([A-Za-z_0-9]+)', line)
+            if m: fn = m.group(1)
+            if fn.startswith('verif_'): continue
+            t = line.strip()
+            if t.startswith('#[') or t.startswith('use ') or t.startswith('//'): continue
+            found = []
+            for m in re.finditer(r'\.expect\(\s*"([^"]*)"', t): found.append('expect("%s")' % m.group(1))
+            for m in re.finditer(r'\.unwrap\(\)', t): found.append('unwrap() in `%s`' % re.sub(r'\s+', ' ', t)[:70])
+            for m in re.finditer(r'\b(panic|unreachable|unimplemented|todo|assert|assert_eq)!\s*\(', t): found.append('%s! in `%s`' % (m.group(1), re.sub(r'\s+', ' ', t)[:70]))
+            for m in re.finditer(r'[A-Za-z_0-9\)\]]\[(?!\s*u8\s*;)([^\[\]"]+)\]', t):
+                if re.match(r'^\s*(vec!|#)', t) or 'vec![' in t[:m.start()+1][-5:]: continue
+                found.append('index [%s] in `%s`' % (m.group(1).strip(), re.sub(r'\s+', ' ', t)[:70]))
+            for x in found:
+                key = '%s::%s::%s' % (rel, fn, x)
+                inv[key] = inv.get(key, 0) + 1
+        # tokio::select! panics when every branch is disabled (all patterns refutable and failed) and there is no else
+        for m in re.finditer(r'tokio::select!\s*\{', src):
+            i = m.end() - 1; depth = 0; j = i
+            while j < len(src):
+                if src[j] == '{': depth += 1
+                elif src[j] == '}':
+                    depth -= 1
+                    if depth == 0: break
+                j += 1
+            blk = src[i:j]
+            # blank out nested select! blocks (their arms are not arms of this one)
+            while True:
+                mm = re.search(r'tokio::select!\s*\{', blk[1:])
+                if not mm: break
+                a = mm.end(); d2 = 0; b = a
+                while b < len(blk):
+                    if blk[b] == '{': d2 += 1
+                    elif blk[b] == '}':
+                        d2 -= 1
+                        if d2 == 0: break
+                    b += 1
+                blk = blk[:mm.start() + 1] + 'NESTED' + blk[b + 1:]
+            fnm = re.findall(r'\bfn\s+([A-Za-z_0-9]+)', src[:i])
+            heads = re.findall(r'^\s*(.+?)\s=\s.+?=>', blk, re.M)
+            irrefutable = any(not h.strip().startswith(('Some', 'Ok', 'Err')) for h in heads) or re.search(r'\belse\s*=>', blk)
+            if not irrefutable:
+                inv['%s::%s::select! without else' % (rel, fnm[-1] if fnm else '?')] = 1
+    return inv
+if STATUS: json.dump({'sites': sites, 'untied': untied, 'rewritten': new != old, 'panic_inventory': panic_inventory()}, open(STATUS,'w'), indent=1)
 print("sites=%d untied=%s" % (len(defs), untied))
